@@ -2,7 +2,7 @@
    reachable parser states, the segmentation law (two pieces, n pieces, errors included) for
    every self-delimiting message, and "complete exactly at the end" for every message of an
    abstract grammar. *)
-From PM Require Import Lib.Bytes Lib.BytesFacts Lib.PyStr Http.Url Http.Chunk Http.Parser Http.ChunkFacts.
+From PM Require Import Lib.Bytes Lib.BytesFacts Lib.PyStr Lib.PyStrFacts Http.Url Http.Chunk Http.Parser Http.ChunkFacts.
 From Coq Require Import ZArith Lia.
 
 Ltac ust := unfold INITIALIZED, LINE_RCVD, RCVING_HEADERS, HEADERS_COMPLETE, RCVING_BODY, COMPLETE in *.
@@ -1179,4 +1179,813 @@ Theorem segmentation_err t segs e : parse (new_parser t) (concat segs) = Err e -
 Proof.
   intros H. rewrite parse_pieces_with_default.
   apply (segmentation_gen _ segs (new_parser t) (Err e) (parser_inv_new t) H Logic.I).
+Qed.
+
+(* ------------------------------------------------------------------------------------- *)
+(* a COMPLETE parser only accumulates what it is given                                     *)
+
+Theorem parse_with_complete_absorbs al p raw : parser_inv p -> state p = COMPLETE ->
+  parse_with al p raw = Ok (set_buffer_size p (optb (bufb p ++ raw)) (total_size p + len raw)).
+Proof.
+  intros (I & _) C. rewrite parse_with_alt by exact I. rewrite PL_complete by exact C. reflexivity.
+Qed.
+
+Theorem parse_with_total_size al p raw p' : parser_inv p -> parse_with al p raw = Ok p' ->
+  total_size p' = total_size p + len raw.
+Proof.
+  intros (I & _). rewrite parse_with_alt by exact I.
+  destruct (PL al (nz raw) p (bufb p ++ raw)) as [[r q]|e]; cbn [bind]; [|discriminate].
+  intros H; inv_ok H. reflexivity.
+Qed.
+
+(* ------------------------------------------------------------------------------------- *)
+(* complete exactly at the end: abstract syntax of self-delimiting messages                *)
+
+Definition tok (l : bytes) : Prop := ~ In SP l /\ ~ In CR l.
+
+Inductive start_line :=
+| ReqLine (m target ver : bytes) (u : url)        (* u: what Url.from_bytes makes of the target *)
+| StatusLine (ver cd : bytes) (rs : option bytes).
+
+Inductive framing :=
+| FNone
+| FLength (hn hv : bytes) (bd : bytes)            (* content-length header as spelled, body *)
+| FChunked (hn hv : bytes) (s : chunk_stream).    (* transfer-encoding header as spelled, chunked stream *)
+
+Definition hdr := (bytes * bytes)%type.
+
+Record message := { m_start : start_line; m_hs1 : list hdr; m_framing : framing; m_hs2 : list hdr }.
+
+Definition hdr_ok (nv : hdr) : Prop :=
+  fst nv <> [] /\ strip (fst nv) = fst nv /\ strip (snd nv) = snd nv /\
+  ~ In COLON (fst nv) /\ ~ In CR (fst nv) /\ ~ In CR (snd nv).
+Definition other_ok (nv : hdr) : Prop :=
+  hdr_ok nv /\ lower (fst nv) <> CONTENT_LENGTH /\ lower (fst nv) <> TRANSFER_ENCODING.
+
+Definition start_ok (al : list bytes) (sl : start_line) : Prop :=
+  match sl with
+  | ReqLine m t v u => tok m /\ tok t /\ ~ In CR v /\ from_bytes al t = Ok u
+  | StatusLine v c rs => tok v /\ tok c /\ match rs with Some r => ~ In CR r | None => True end
+  end.
+Definition framing_ok (f : framing) : Prop :=
+  match f with
+  | FNone => True
+  | FLength hn hv bd => hdr_ok (hn, hv) /\ lower hn = CONTENT_LENGTH /\ int10 hv = Ok (Z.of_nat (length bd))
+  | FChunked hn hv s => hdr_ok (hn, hv) /\ lower hn = TRANSFER_ENCODING /\ lower hv = CHUNKED /\ stream_ok s
+  end.
+Definition message_ok (al : list bytes) (m : message) : Prop :=
+  start_ok al (m_start m) /\ Forall other_ok (m_hs1 m) /\ framing_ok (m_framing m) /\ Forall other_ok (m_hs2 m).
+
+(* a response without content-length and without chunked encoding ends where the connection ends:
+   it is inside the theorem only when nothing follows the blank line *)
+Definition tail_ok (m : message) (tail : bytes) : Prop :=
+  match m_start m, m_framing m with
+  | StatusLine _ _ _, FNone => tail = []
+  | _, _ => True
+  end.
+
+Definition render_start (sl : start_line) : bytes :=
+  match sl with
+  | ReqLine m t v _ => m ++ SP :: t ++ SP :: v
+  | StatusLine v c None => v ++ SP :: c
+  | StatusLine v c (Some r) => v ++ SP :: c ++ SP :: r
+  end.
+Definition render_hdr (nv : hdr) : bytes := fst nv ++ COLON :: SP :: snd nv.
+Definition render_hdrs (hs : list hdr) : bytes := concat (map (fun nv => render_hdr nv ++ CRLF) hs).
+Definition framing_hdrs (f : framing) : list hdr :=
+  match f with FNone => [] | FLength hn hv _ => [(hn, hv)] | FChunked hn hv _ => [(hn, hv)] end.
+Definition framing_bytes (f : framing) : bytes :=
+  match f with FNone => [] | FLength _ _ bd => bd | FChunked _ _ s => render_stream s end.
+Definition all_hdrs (m : message) : list hdr := m_hs1 m ++ framing_hdrs (m_framing m) ++ m_hs2 m.
+Definition render (m : message) : bytes :=
+  render_start (m_start m) ++ CRLF ++ render_hdrs (all_hdrs m) ++ CRLF ++ framing_bytes (m_framing m).
+
+Definition msg_type (m : message) : ptype :=
+  match m_start m with ReqLine _ _ _ _ => REQUEST_PARSER | StatusLine _ _ _ => RESPONSE_PARSER end.
+
+(* the header dictionary: insertion order kept, keys lower-cased, a repeated name replaces the
+   earlier entry in place *)
+Definition add_all (h : option hdict) (hs : list hdr) : option hdict :=
+  fold_left (fun h nv => Some (add_header_d h (fst nv) (snd nv))) hs h.
+
+(* ---- list / strip helpers ---- *)
+Lemma crlf_free_cr l : ~ In CR l -> crlf_free l.
+Proof.
+  unfold crlf_free. induction l as [|c t IH]; intros H; [reflexivity|].
+  cbn [app split_once]. unfold CRLF at 1. cbn [is_prefix].
+  destruct (N.eqb_spec 13 c) as [E|E].
+  - exfalso. apply H. left. symmetry. exact E.
+  - cbn [andb]. rewrite IH; [reflexivity|]. intros Hin. apply H. right. exact Hin.
+Qed.
+
+Lemma lstrip_length l : (length (lstrip l) <= length l)%nat.
+Proof. induction l as [|x t IH]; cbn [lstrip]; [lia|]. destruct (is_ws x); cbn [length]; lia. Qed.
+
+Lemma strip_fix_head x t : strip (x :: t) = x :: t -> is_ws x = false.
+Proof.
+  intros H. destruct (is_ws x) eqn:E; [|reflexivity]. exfalso.
+  assert (L : (length (strip (x :: t)) <= length t)%nat).
+  { unfold strip, rstrip. cbn [lstrip]. rewrite E. rewrite rev_length.
+    etransitivity; [apply lstrip_length|]. rewrite rev_length. apply lstrip_length. }
+  rewrite H in L. cbn [length] in L. lia.
+Qed.
+
+Lemma strip_sp v : strip (SP :: v) = strip v.
+Proof. reflexivity. Qed.
+
+Lemma hdr_ok_free nv : hdr_ok nv -> crlf_free (render_hdr nv).
+Proof.
+  intros (_ & _ & _ & _ & Hn & Hv). apply crlf_free_cr. unfold render_hdr.
+  rewrite in_app_iff. cbn [In]. unfold COLON, SP, CR in *. intros [H|[H|[H|H]]]; try discriminate; tauto.
+Qed.
+
+Lemma hdr_ok_nonblank nv : hdr_ok nv -> match strip (render_hdr nv) with [] => true | _ => false end = false.
+Proof.
+  intros (Hne & Hs & _). destruct (fst nv) as [|x t] eqn:E; [congruence|].
+  pose proof (strip_fix_head x t Hs) as W.
+  assert (Hin : In x (strip (render_hdr nv))).
+  { apply In_strip; [|exact W]. unfold render_hdr. rewrite E. left; reflexivity. }
+  destruct (strip (render_hdr nv)); [destruct Hin|reflexivity].
+Qed.
+
+Lemma hdr_kv_render nv : hdr_ok nv -> hdr_kv (render_hdr nv) = nv.
+Proof.
+  intros (_ & Hs & Hv & Hc & _). unfold hdr_kv, render_hdr.
+  rewrite (split_once_byte_notin COLON (fst nv) (SP :: snd nv) Hc).
+  rewrite strip_sp, Hs, Hv. destruct nv; reflexivity.
+Qed.
+
+(* ---- one rendered header line through _process_header ---- *)
+Lemma process_header_other p nv : other_ok nv ->
+  process_header p (render_hdr nv) =
+  Ok (set_headers p (Some (add_header_d (headers p) (fst nv) (snd nv))) (is_chunked_encoded p) (content_expected p)).
+Proof.
+  intros (H & N1 & N2). rewrite process_header_eq, (hdr_kv_render nv H). cbv zeta.
+  replace (bytes_eqb (lower (fst nv)) CONTENT_LENGTH) with false
+    by (symmetry; destruct (bytes_eqb (lower (fst nv)) CONTENT_LENGTH) eqn:E; [apply bytes_eqb_eq in E; contradiction|reflexivity]).
+  replace (bytes_eqb (lower (fst nv)) TRANSFER_ENCODING) with false
+    by (symmetry; destruct (bytes_eqb (lower (fst nv)) TRANSFER_ENCODING) eqn:E; [apply bytes_eqb_eq in E; contradiction|reflexivity]).
+  reflexivity.
+Qed.
+
+Lemma process_header_cl p hn hv n : hdr_ok (hn, hv) -> lower hn = CONTENT_LENGTH -> int10 hv = Ok n ->
+  process_header p (render_hdr (hn, hv)) =
+  Ok (set_headers p (Some (add_header_d (headers p) hn hv)) (is_chunked_encoded p) (0 <? n)%Z).
+Proof.
+  intros H N1 N2. rewrite process_header_eq, (hdr_kv_render _ H). cbv zeta. cbn [fst snd].
+  rewrite N1, bytes_eqb_refl, N2. reflexivity.
+Qed.
+
+Lemma process_header_te p hn hv : hdr_ok (hn, hv) -> lower hn = TRANSFER_ENCODING -> lower hv = CHUNKED ->
+  process_header p (render_hdr (hn, hv)) =
+  Ok (set_headers p (Some (add_header_d (headers p) hn hv)) true (content_expected p)).
+Proof.
+  intros H N1 N2. rewrite process_header_eq, (hdr_kv_render _ H). cbv zeta. cbn [fst snd].
+  rewrite N1, N2. reflexivity.
+Qed.
+
+(* ---- the header loop on rendered lines ---- *)
+Lemma PH_line p nv more p' : st23 p -> hdr_ok nv -> more <> [] ->
+  process_header (set_state p RCVING_HEADERS) (render_hdr nv) = Ok p' ->
+  PH p ((render_hdr nv ++ CRLF) ++ more) = PH p' more.
+Proof.
+  intros S H Hm E. rewrite PH_step, <- app_assoc, (crlf_free_split _ _ (hdr_ok_free nv H)).
+  unfold hdr_step. rewrite (st23_test p S), (hdr_ok_nonblank nv H), E. cbn [bind].
+  apply nz_true in Hm. rewrite Hm. rewrite (process_header_state _ _ _ E). reflexivity.
+Qed.
+
+Lemma PH_end p rest : st23 p ->
+  PH p (CRLF ++ rest) = Ok (nz rest, rest, set_state p HEADERS_COMPLETE).
+Proof.
+  intros S. rewrite PH_step, split_once_crlf_head. unfold hdr_step. rewrite (st23_test p S).
+  change (strip []) with (@nil N). cbn [bind state set_state]. rewrite N.eqb_refl, orb_true_r. reflexivity.
+Qed.
+
+Ltac ne_tac :=
+  let Q := fresh in intros Q; apply (f_equal (@length N)) in Q; rewrite ?app_length in Q;
+  cbn [length CRLF] in Q; lia.
+
+Lemma crlf_app_ne (x : bytes) : CRLF ++ x <> [].
+Proof. discriminate. Qed.
+
+Lemma render_hdrs_app a b : render_hdrs (a ++ b) = render_hdrs a ++ render_hdrs b.
+Proof. unfold render_hdrs. rewrite map_app, concat_app. reflexivity. Qed.
+
+Lemma render_hdrs_one nv : render_hdrs [nv] = render_hdr nv ++ CRLF.
+Proof. unfold render_hdrs. cbn [map concat]. apply app_nil_r. Qed.
+
+(* a run of headers that are neither content-length nor transfer-encoding *)
+Lemma PH_others hs : forall p more, st23 p -> Forall other_ok hs -> more <> [] ->
+  exists p', PH p (render_hdrs hs ++ more) = PH p' more /\ st23 p' /\
+    set_state p' HEADERS_COMPLETE =
+    set_state (set_headers p (add_all (headers p) hs) (is_chunked_encoded p) (content_expected p)) HEADERS_COMPLETE.
+Proof.
+  induction hs as [|nv hs IH]; intros p more S F Hm.
+  - exists p. cbn [render_hdrs map concat app add_all fold_left]. split; [reflexivity|]. split; [exact S|reflexivity].
+  - inversion F as [|? ? Hnv Hhs]; subst.
+    cbn [render_hdrs map concat]. fold (render_hdrs hs). rewrite <- app_assoc.
+    pose proof (process_header_other (set_state p RCVING_HEADERS) nv Hnv) as E.
+    set (p1 := set_headers (set_state p RCVING_HEADERS)
+                 (Some (add_header_d (headers p) (fst nv) (snd nv))) (is_chunked_encoded p) (content_expected p)).
+    assert (S1 : st23 p1) by (right; reflexivity).
+    assert (Hm' : render_hdrs hs ++ more <> []).
+    { intros X. apply app_eq_nil in X. tauto. }
+    rewrite (PH_line p nv _ p1 S (proj1 Hnv) Hm' E).
+    destruct (IH p1 more S1 Hhs Hm) as (p' & A & B & C).
+    exists p'. split; [exact A|]. split; [exact B|]. rewrite C. reflexivity.
+Qed.
+
+(* ---- start line ---- *)
+Lemma splitn2_three a c d : ~ In SP a -> ~ In SP c -> splitn [SP] 2 (a ++ SP :: c ++ SP :: d) = [a; c; d].
+Proof.
+  intros Ha Hc. cbn [splitn]. rewrite (split_once_byte_notin SP a _ Ha), (split_once_byte_notin SP c _ Hc). reflexivity.
+Qed.
+Lemma splitn2_two a c : ~ In SP a -> ~ In SP c -> splitn [SP] 2 (a ++ SP :: c) = [a; c].
+Proof.
+  intros Ha Hc. cbn [splitn]. rewrite (split_once_byte_notin SP a _ Ha), (split_once_byte_none SP c Hc). reflexivity.
+Qed.
+
+Definition after_line (p : parser) (sl : start_line) : parser :=
+  match sl with
+  | ReqLine m t v u =>
+      let tn := bytes_eqb m CONNECT || is_https_tunnel p in
+      let la := line_attributes tn u in
+      set_line p (Some m) (Some u) tn (code p) (reason p) (Some v) (fst (fst la)) (snd (fst la)) (snd la)
+  | StatusLine v c rs =>
+      set_line p (method p) (purl p) (is_https_tunnel p) (Some c)
+               (match rs with Some r => Some r | None => reason p end) (Some v) (host p) (port p) (path p)
+  end.
+
+Lemma start_free al sl : start_ok al sl -> crlf_free (render_start sl).
+Proof.
+  intros H. apply crlf_free_cr. destruct sl as [m t v u|v c [r|]]; cbn [start_ok render_start] in *;
+    unfold tok in H; rewrite ?in_app_iff; cbn [In]; rewrite ?in_app_iff; cbn [In];
+    unfold SP, CR in *; intuition discriminate.
+Qed.
+
+Lemma process_line_render al p sl rest : start_ok al sl ->
+  is_request (ty p) = match sl with ReqLine _ _ _ _ => true | StatusLine _ _ _ => false end ->
+  process_line al p (render_start sl ++ CRLF ++ rest) = Ok (nz rest, rest, after_line p sl).
+Proof.
+  intros H T. unfold process_line. rewrite (crlf_free_split _ _ (start_free al sl H)), T.
+  destruct sl as [m t v u|v c [r|]]; cbn [start_ok render_start after_line] in *.
+  - destruct H as ((Hm & _) & (Ht & _) & _ & Hu). rewrite (splitn2_three m t v Hm Ht), Hu. cbn [bind].
+    destruct (line_attributes _ u) as [[h pt] pa]. reflexivity.
+  - destruct H as ((Hv & _) & (Hc & _) & _). rewrite (splitn2_three v c r Hv Hc). reflexivity.
+  - destruct H as ((Hv & _) & (Hc & _) & _). rewrite (splitn2_two v c Hv Hc). reflexivity.
+Qed.
+
+(* ---- the final state ---- *)
+Definition final_of (p : parser) (m : message) : parser :=
+  let h := add_all None (all_hdrs m) in
+  match m_framing m with
+  | FNone => set_state (set_headers p h false false) COMPLETE
+  | FLength _ _ [] => set_state (set_headers p h false false) COMPLETE
+  | FLength _ _ bd => set_body (set_state (set_headers p h false true) COMPLETE) (Some bd)
+  | FChunked _ _ s =>
+      set_chunk (set_body (set_state (set_headers p h true false) COMPLETE) (Some (stream_body s)))
+                (Some (complete_state (stream_body s)))
+  end.
+
+Definition expected (m : message) (tail : bytes) : parser :=
+  set_buffer_size (final_of (after_line (new_parser (msg_type m)) (m_start m)) m)
+                  (optb tail) (len (render m ++ tail)).
+
+(* a parser that has just taken the start line *)
+Definition fresh2 (p : parser) : Prop :=
+  state p = LINE_RCVD /\ headers p = None /\ is_chunked_encoded p = false /\ content_expected p = false /\
+  body p = None /\ chunk p = None.
+
+Lemma add_all_app h a b : add_all h (a ++ b) = add_all (add_all h a) b.
+Proof. unfold add_all. apply fold_left_app. Qed.
+
+Definition unopt (h : option hdict) : hdict := match h with Some d => d | None => [] end.
+
+Lemma add_all_get_cl hs : forall h, Forall other_ok hs ->
+  dict_get CONTENT_LENGTH (unopt (add_all h hs)) = dict_get CONTENT_LENGTH (unopt h).
+Proof.
+  induction hs as [|nv hs IH]; intros h F; [reflexivity|].
+  inversion F as [|? ? (_ & N1 & _) Hhs]; subst. cbn [add_all fold_left]. fold (add_all (Some (add_header_d h (fst nv) (snd nv))) hs).
+  rewrite IH by exact Hhs. cbn [unopt]. unfold add_header_d. fold (unopt h).
+  apply dict_get_set_other.
+  destruct (bytes_eqb CONTENT_LENGTH (lower (fst nv))) eqn:E; [|reflexivity].
+  apply bytes_eqb_eq in E. congruence.
+Qed.
+
+(* the header dictionary in closed form *)
+Definition hd_add (d : hdict) (nv : hdr) : hdict := dict_set (lower (fst nv)) nv d.
+Lemma add_all_spec hs :
+  add_all None hs = match hs with [] => None | _ => Some (fold_left hd_add hs []) end.
+Proof.
+  assert (G : forall hs h, add_all (Some h) hs = Some (fold_left hd_add hs h)).
+  { induction hs0 as [|nv t IH]; intros h; [reflexivity|]. cbn [add_all fold_left].
+    fold (add_all (Some (add_header_d (Some h) (fst nv) (snd nv))) t). rewrite IH.
+    unfold hd_add at 2, add_header_d. destruct nv; reflexivity. }
+  destruct hs as [|nv t]; [reflexivity|]. cbn [add_all fold_left].
+  fold (add_all (Some (add_header_d None (fst nv) (snd nv))) t). rewrite G.
+  unfold hd_add at 2, add_header_d. destruct nv; reflexivity.
+Qed.
+
+Lemma header_unopt p k : header p k = match dict_get (lower k) (unopt (headers p)) with Some (_, v) => Ok v | None => Err KeyError end.
+Proof. unfold header, unopt. destruct (headers p); reflexivity. Qed.
+Lemma has_header_unopt p k : has_header p k = dict_has (lower k) (unopt (headers p)).
+Proof. unfold has_header, unopt. destruct (headers p); reflexivity. Qed.
+
+(* headers of a rendered message, up to and including the blank line *)
+Lemma PH_message p m rest : st23 p -> pinv p -> headers p = None ->
+  is_chunked_encoded p = false -> content_expected p = false ->
+  Forall other_ok (m_hs1 m) -> framing_ok (m_framing m) -> Forall other_ok (m_hs2 m) ->
+  exists ch ce,
+    PH p (render_hdrs (all_hdrs m) ++ CRLF ++ rest) =
+      Ok (nz rest, rest, set_state (set_headers p (add_all None (all_hdrs m)) ch ce) HEADERS_COMPLETE) /\
+    match m_framing m with
+    | FNone => ch = false /\ ce = false
+    | FLength _ _ bd => ch = false /\ ce = nz bd
+    | FChunked _ _ _ => ch = true /\ ce = false
+    end.
+Proof.
+  intros S I Hh Hch Hce F1 Ff F2. unfold all_hdrs. rewrite !render_hdrs_app, <- !app_assoc.
+  assert (Hne1 : render_hdrs (framing_hdrs (m_framing m)) ++ render_hdrs (m_hs2 m) ++ CRLF ++ rest <> []) by ne_tac.
+  destruct (PH_others (m_hs1 m) p _ S F1 Hne1) as (p1 & A1 & S1 & C1).
+  rewrite A1. rewrite Hh, Hch, Hce in C1. clear A1 Hne1.
+  assert (Hne2 : render_hdrs (m_hs2 m) ++ CRLF ++ rest <> []) by ne_tac.
+  pose proof (f_equal headers C1) as Hh1. cbn [headers set_state set_headers] in Hh1.
+  pose proof (f_equal is_chunked_encoded C1) as Hch1. cbn [is_chunked_encoded set_state set_headers] in Hch1.
+  pose proof (f_equal content_expected C1) as Hce1. cbn [content_expected set_state set_headers] in Hce1.
+  destruct (m_framing m) as [|hn hv bd|hn hv s]; cbn [framing_hdrs framing_ok] in *.
+  - change (render_hdrs []) with (@nil N). cbn [app].
+    destruct (PH_others (m_hs2 m) p1 (CRLF ++ rest) S1 F2 (crlf_app_ne rest)) as (p2 & A2 & S2 & C2).
+    exists false, false. split; [|auto]. rewrite A2, (PH_end p2 rest S2), C2. f_equal. f_equal.
+    cbn [app]. rewrite add_all_app.
+    transitivity (set_state (set_headers (set_state p1 HEADERS_COMPLETE)
+                   (add_all (headers p1) (m_hs2 m)) (is_chunked_encoded p1) (content_expected p1)) HEADERS_COMPLETE);
+      [reflexivity|].
+    rewrite C1, Hh1, Hch1, Hce1. reflexivity.
+  - destruct Ff as (Hok & N1 & N2).
+    rewrite render_hdrs_one.
+    pose proof (process_header_cl (set_state p1 RCVING_HEADERS) hn hv _ Hok N1 N2) as E.
+    assert (Hnz : (0 <? Z.of_nat (length bd))%Z = nz bd)
+      by (destruct bd; [reflexivity|cbn [length nz Nat.eqb negb]; apply Z.ltb_lt; lia]).
+    rewrite Hnz in E.
+    set (p1' := set_headers (set_state p1 RCVING_HEADERS) (Some (add_header_d (headers p1) hn hv))
+                  (is_chunked_encoded p1) (nz bd)) in *.
+    assert (S1' : st23 p1') by (right; reflexivity).
+    rewrite (PH_line p1 (hn, hv) _ p1' S1 Hok Hne2 E).
+    destruct (PH_others (m_hs2 m) p1' (CRLF ++ rest) S1' F2 (crlf_app_ne rest)) as (p2 & A2 & S2 & C2).
+    exists false, (nz bd). split; [|auto]. rewrite A2, (PH_end p2 rest S2), C2. f_equal. f_equal.
+    rewrite !add_all_app. cbn [add_all fold_left fst snd].
+    transitivity (set_state (set_headers (set_state p1 HEADERS_COMPLETE)
+        (add_all (Some (add_header_d (headers (set_state p1 HEADERS_COMPLETE)) hn hv)) (m_hs2 m))
+        (is_chunked_encoded (set_state p1 HEADERS_COMPLETE)) (nz bd)) HEADERS_COMPLETE); [reflexivity|].
+    rewrite C1. reflexivity.
+  - destruct Ff as (Hok & N1 & N2 & _).
+    rewrite render_hdrs_one.
+    pose proof (process_header_te (set_state p1 RCVING_HEADERS) hn hv Hok N1 N2) as E.
+    set (p1' := set_headers (set_state p1 RCVING_HEADERS) (Some (add_header_d (headers p1) hn hv))
+                  true (content_expected p1)) in *.
+    assert (S1' : st23 p1') by (right; reflexivity).
+    rewrite (PH_line p1 (hn, hv) _ p1' S1 Hok Hne2 E).
+    destruct (PH_others (m_hs2 m) p1' (CRLF ++ rest) S1' F2 (crlf_app_ne rest)) as (p2 & A2 & S2 & C2).
+    exists true, false. split; [|auto]. rewrite A2, (PH_end p2 rest S2), C2. f_equal. f_equal.
+    rewrite !add_all_app. cbn [add_all fold_left fst snd].
+    transitivity (set_state (set_headers (set_state p1 HEADERS_COMPLETE)
+        (add_all (Some (add_header_d (headers (set_state p1 HEADERS_COMPLETE)) hn hv)) (m_hs2 m))
+        true (content_expected (set_state p1 HEADERS_COMPLETE))) HEADERS_COMPLETE); [reflexivity|].
+    rewrite C1. reflexivity.
+Qed.
+
+Lemma cl_lookup hs1 hn hv hs2 : lower hn = CONTENT_LENGTH -> Forall other_ok hs2 ->
+  dict_get CONTENT_LENGTH (unopt (add_all None (hs1 ++ (hn, hv) :: hs2))) = Some (hn, hv).
+Proof.
+  intros N F. rewrite add_all_app. cbn [add_all fold_left fst snd].
+  fold (add_all (Some (add_header_d (add_all None hs1) hn hv)) hs2).
+  rewrite add_all_get_cl by exact F. cbn [unopt]. unfold add_header_d. rewrite N.
+  apply dict_get_set_same.
+Qed.
+
+Lemma no_cl_lookup hs : Forall other_ok hs -> dict_get CONTENT_LENGTH (unopt (add_all None hs)) = None.
+Proof. intros F. rewrite add_all_get_cl by exact F. reflexivity. Qed.
+
+(* headers and body of a rendered message, from the state after the start line *)
+Lemma PL_message al p m tail : fresh2 p -> pinv p ->
+  Forall other_ok (m_hs1 m) -> framing_ok (m_framing m) -> Forall other_ok (m_hs2 m) ->
+  (is_request (ty p) = false -> m_framing m = FNone -> tail = []) ->
+  PL al true p (render_hdrs (all_hdrs m) ++ CRLF ++ framing_bytes (m_framing m) ++ tail) =
+  Ok (tail, final_of p m).
+Proof.
+  intros (S2 & Hh & Hch & Hce & Hb & Hk) I F1 Ff F2 Ht.
+  assert (S : st23 p) by (left; exact S2).
+  assert (N : state p <> COMPLETE) by (rewrite S2; discriminate).
+  set (rest := framing_bytes (m_framing m) ++ tail).
+  destruct (PH_message p m rest S I Hh Hch Hce F1 Ff F2) as (ch & ce & A & Hf).
+  rewrite PL_step_true by assumption.
+  pose proof (proc_spec al p (render_hdrs (all_hdrs m) ++ CRLF ++ rest) I N) as Sp.
+  rewrite (proc_headers al p _ S), A in *. cbn [bind]. destruct Sp as (I4 & _).
+  set (H := add_all None (all_hdrs m)) in *.
+  set (p4 := set_state (set_headers p H ch ce) HEADERS_COMPLETE) in *.
+  unfold final_of. fold H. unfold all_hdrs in H.
+  destruct (m_framing m) as [|hn hv bd|hn hv s] eqn:Fr; cbn [framing_hdrs framing_bytes framing_ok] in *.
+  - (* no framing header: a request, or a response with nothing after the blank line *)
+    destruct Hf as (-> & ->). cbn [app] in rest.
+    assert (M : maybe_complete p4 rest = set_state p4 COMPLETE).
+    { unfold maybe_complete. cbn [state p4 set_state set_headers content_expected is_chunked_encoded ty].
+      change (HEADERS_COMPLETE =? HEADERS_COMPLETE) with true. cbn [orb negb andb].
+      destruct (is_request (ty p)) eqn:Rq.
+      - rewrite orb_true_r. reflexivity.
+      - unfold rest. rewrite (Ht eq_refl eq_refl). reflexivity. }
+    rewrite M. rewrite PL_complete by reflexivity. reflexivity.
+  - destruct Hf as (-> & ->). destruct Ff as (Hok & N1 & N2).
+    assert (L : dict_get CONTENT_LENGTH (unopt H) = Some (hn, hv)) by (apply cl_lookup; assumption).
+    destruct bd as [|b0 bd'].
+    + (* content-length: 0 *)
+      cbn [app nz length Nat.eqb negb] in *.
+      assert (M : maybe_complete p4 rest = set_state p4 COMPLETE).
+      { unfold maybe_complete. rewrite has_header_unopt.
+        cbn [state p4 set_state set_headers content_expected is_chunked_encoded ty headers].
+        rewrite lower_CL. unfold dict_has. rewrite L.
+        change (HEADERS_COMPLETE =? HEADERS_COMPLETE) with true. cbn [orb negb andb].
+        rewrite orb_true_r. reflexivity. }
+      rewrite M. rewrite PL_complete by reflexivity. reflexivity.
+    + (* content-length: n > 0 *)
+      set (bd := b0 :: bd') in *. change (nz bd) with true in *.
+      assert (M : maybe_complete p4 rest = p4).
+      { unfold maybe_complete. cbn [p4 content_expected set_state set_headers]. cbn [orb negb].
+        rewrite andb_false_r. reflexivity. }
+      rewrite M in *. change (nz rest) with true.
+      rewrite PL_step_true; [|exact I4|discriminate].
+      rewrite proc_body by (cbn [p4 state set_state]; ust; lia).
+      assert (Hh4 : header p4 CONTENT_LENGTH = Ok hv).
+      { rewrite header_unopt, lower_CL. cbn [p4 headers set_state set_headers]. rewrite L. reflexivity. }
+      assert (B4 : bodyb p4 = []) by (unfold bodyb; cbn [p4 body set_state set_headers]; rewrite Hb; reflexivity).
+      rewrite (process_body_cl p4 rest hv (Z.of_nat (length bd)) eq_refl eq_refl Hh4 N2)
+        by (rewrite B4; unfold bd; cbn [length]; lia).
+      rewrite B4. cbn [length app bind]. rewrite Nat2Z.id, Nat.sub_0_r.
+      unfold rest. rewrite firstn_app_exact, skipn_app_exact.
+      assert (X : cl_result p4 bd (Z.of_nat (length bd)) =
+                  set_state (set_body (set_state p4 RCVING_BODY) (Some bd)) COMPLETE).
+      { unfold cl_result. change (nz bd) with true. rewrite Z.eqb_refl. reflexivity. }
+      rewrite X. rewrite maybe_complete_not4 by discriminate.
+      rewrite PL_complete by reflexivity. reflexivity.
+  - (* chunked *)
+    destruct Hf as (-> & ->). destruct Ff as (Hok & N1 & N2 & Hs).
+    assert (M : maybe_complete p4 rest = p4) by (apply maybe_complete_chunked; reflexivity).
+    rewrite M in *.
+    assert (Hr : nz rest = true).
+    { apply nz_true. unfold rest, render_stream. ne_tac. }
+    rewrite Hr. rewrite PL_step_true; [|exact I4|discriminate].
+    rewrite proc_body by (cbn [p4 state set_state]; ust; lia).
+    rewrite process_body_chunked by reflexivity.
+    assert (C4 : chunk_of p4 = new_chunkp) by (unfold chunk_of; cbn [p4 chunk set_state set_headers]; rewrite Hk; reflexivity).
+    rewrite C4. unfold rest. rewrite (chunk_complete_at_end s tail Hs). cbn [bind].
+    rewrite PL_false. unfold chunk_result. cbn [complete_state cst cbody].
+    change (cstate_eqb CCOMPLETE CCOMPLETE) with true. cbv iota.
+    rewrite maybe_complete_not4 by discriminate. reflexivity.
+Qed.
+
+Lemma after_line_fresh t sl : fresh2 (after_line (new_parser t) sl).
+Proof. destruct sl as [m tg v u|v c rs]; repeat split. Qed.
+
+Lemma after_line_inv p sl : pinv p -> state p = INITIALIZED -> pinv (after_line p sl).
+Proof. intros I S. destruct sl; apply pinv_set_line; assumption. Qed.
+
+Lemma after_line_ty p sl : ty (after_line p sl) = ty p.
+Proof. destruct sl; reflexivity. Qed.
+
+(* the whole message followed by any tail: COMPLETE, every field as in the message, the tail
+   handed back untouched in [buffer] *)
+Theorem complete_at_end al m tail : message_ok al m -> tail_ok m tail ->
+  parse_with al (new_parser (msg_type m)) (render m ++ tail) = Ok (expected m tail).
+Proof.
+  intros (Hs & F1 & Ff & F2) Ht.
+  set (t := msg_type m). set (p0 := new_parser t).
+  assert (I0 : pinv p0) by apply pinv_new.
+  rewrite parse_with_alt by exact I0. change (bufb p0) with (@nil N). cbn [app].
+  change (total_size p0) with 0. rewrite N.add_0_l.
+  assert (Hne : nz (render m ++ tail) = true).
+  { apply nz_true. unfold render. ne_tac. }
+  rewrite Hne. unfold render at 1. rewrite <- !app_assoc.
+  rewrite PL_step_true; [|exact I0|discriminate].
+  rewrite proc_line by reflexivity.
+  rewrite (process_line_render al p0 (m_start m) _ Hs)
+    by (unfold p0, t, msg_type; destruct (m_start m); reflexivity).
+  cbn [bind].
+  set (p2 := after_line p0 (m_start m)).
+  assert (I2 : pinv p2) by (apply after_line_inv; [exact I0|reflexivity]).
+  rewrite maybe_complete_not4
+    by (unfold p2; destruct (m_start m); cbn [after_line state set_line]; discriminate).
+  assert (Hne2 : nz (render_hdrs (all_hdrs m) ++ CRLF ++ framing_bytes (m_framing m) ++ tail) = true).
+  { apply nz_true. ne_tac. }
+  rewrite Hne2.
+  rewrite (PL_message al p2 m tail (after_line_fresh t (m_start m)) I2 F1 Ff F2).
+  - reflexivity.
+  - intros Rq Fr. unfold p2 in Rq. rewrite after_line_ty in Rq. unfold tail_ok in Ht.
+    unfold p0, t, msg_type in Rq. rewrite Fr in Ht. destruct (m_start m); [discriminate|exact Ht].
+Qed.
+
+Lemma expected_state m tail : state (expected m tail) = COMPLETE.
+Proof. unfold expected, final_of. destruct (m_framing m) as [|hn hv [|b0 bd]|hn hv s]; reflexivity. Qed.
+
+Lemma expected_buffer m tail : buffer (expected m tail) = optb tail.
+Proof. reflexivity. Qed.
+
+Lemma expected_total_size m tail : total_size (expected m tail) = len (render m ++ tail).
+Proof. reflexivity. Qed.
+
+Lemma expected_headers m tail : headers (expected m tail) = add_all None (all_hdrs m).
+Proof. unfold expected, final_of. destruct (m_framing m) as [|hn hv [|b0 bd]|hn hv s]; reflexivity. Qed.
+
+Lemma expected_body m tail :
+  body (expected m tail) =
+  match m_framing m with
+  | FNone => None
+  | FLength _ _ bd => optb bd
+  | FChunked _ _ s => Some (stream_body s)
+  end.
+Proof.
+  unfold expected, final_of.
+  destruct (m_framing m) as [|hn hv [|b0 bd]|hn hv s]; destruct (m_start m); reflexivity.
+Qed.
+
+Lemma expected_start m tail :
+  let p := expected m tail in
+  match m_start m with
+  | ReqLine mt tg v u =>
+      let tn := bytes_eqb mt CONNECT in
+      method p = Some mt /\ purl p = Some u /\ version p = Some v /\ is_https_tunnel p = tn /\
+      (host p, port p, path p) = line_attributes tn u /\ code p = None /\ reason p = None
+  | StatusLine v c rs =>
+      version p = Some v /\ code p = Some c /\ reason p = rs /\ method p = None /\
+      host p = None /\ port p = None /\ path p = None
+  end.
+Proof.
+  unfold expected, final_of.
+  destruct (m_start m) as [mt tg v u|v c [r|]]; destruct (m_framing m) as [|hn hv [|b0 bd]|hn hv s];
+    cbn [after_line new_parser msg_type is_https_tunnel code reason method purl host port path orb];
+    rewrite ?orb_false_r; repeat split;
+    try (destruct (line_attributes _ u) as [[h pt] pa]; reflexivity).
+Qed.
+
+Lemma expected_fields m tail :
+  let p := expected m tail in
+  state p = COMPLETE /\ buffer p = optb tail /\ total_size p = len (render m ++ tail) /\
+  headers p = add_all None (all_hdrs m) /\
+  body p = match m_framing m with
+           | FNone => None | FLength _ _ bd => optb bd | FChunked _ _ s => Some (stream_body s) end /\
+  match m_start m with
+  | ReqLine mt tg v u =>
+      let tn := bytes_eqb mt CONNECT in
+      method p = Some mt /\ purl p = Some u /\ version p = Some v /\ is_https_tunnel p = tn /\
+      (host p, port p, path p) = line_attributes tn u /\ code p = None /\ reason p = None
+  | StatusLine v c rs =>
+      version p = Some v /\ code p = Some c /\ reason p = rs /\ method p = None /\
+      host p = None /\ port p = None /\ path p = None
+  end.
+Proof.
+  exact (conj (expected_state m tail) (conj (expected_buffer m tail)
+         (conj (expected_total_size m tail) (conj (expected_headers m tail)
+         (conj (expected_body m tail) (expected_start m tail)))))).
+Qed.
+
+Lemma framed_complete p : state p = COMPLETE -> framed p = true.
+Proof. intros H. unfold framed. rewrite H. reflexivity. Qed.
+
+(* never earlier: on every proper prefix of the message the parser is Ok and not COMPLETE *)
+Theorem not_complete_before_end al m q r : message_ok al m -> render m = q ++ r -> r <> [] ->
+  exists p1, parse_with al (new_parser (msg_type m)) q = Ok p1 /\ state p1 <> COMPLETE.
+Proof.
+  intros Hm E Hr.
+  assert (Ht : tail_ok m []) by (unfold tail_ok; destruct (m_start m); destruct (m_framing m); exact Logic.I || reflexivity).
+  pose proof (complete_at_end al m [] Hm Ht) as W. rewrite app_nil_r, E in W.
+  pose proof (two_piece_gen al _ q r _ (parser_inv_new _) W (framed_complete _ (expected_state m []))) as L.
+  destruct (parse_with al (new_parser (msg_type m)) q) as [p1|e] eqn:Q; cbn [bind] in L; [|discriminate].
+  exists p1. split; [reflexivity|]. intros C.
+  rewrite (parse_with_complete_absorbs al p1 r) in L
+    by (try (eapply parse_with_inv; [apply parser_inv_new|exact Q]); exact C).
+  apply (f_equal (fun x => match x with Ok p => buffer p | Err _ => None end)) in L.
+  cbn [buffer set_buffer_size expected optb] in L.
+  destruct (bufb p1 ++ r) eqn:X; [apply app_eq_nil in X; tauto|discriminate].
+Qed.
+
+Theorem complete_exactly_at_end al m : message_ok al m ->
+  (forall tail, tail_ok m tail ->
+     parse_with al (new_parser (msg_type m)) (render m ++ tail) = Ok (expected m tail)) /\
+  (forall q r, render m = q ++ r -> r <> [] ->
+     exists p1, parse_with al (new_parser (msg_type m)) q = Ok p1 /\ state p1 <> COMPLETE).
+Proof.
+  intros H. split.
+  - intros tail. apply complete_at_end, H.
+  - intros q r. apply not_complete_before_end, H.
+Qed.
+
+(* ------------------------------------------------------------------------------------- *)
+(* what [framed] excludes is exactly the class the property excludes                       *)
+
+(* second invariant: a parser that sits after the header block with neither content-length
+   expectation nor chunked encoding is a response parser and saw no content-length header
+   (a request, or any message with a content-length header, completed at the blank line) *)
+Definition close_delimited (p : parser) : Prop :=
+  is_request (ty p) = false /\ has_header p CONTENT_LENGTH = false /\
+  content_expected p = false /\ is_chunked_encoded p = false.
+
+Definition pinv2 (p : parser) : Prop :=
+  (state p = HEADERS_COMPLETE \/ state p = RCVING_BODY) ->
+  content_expected p = false -> is_chunked_encoded p = false -> close_delimited p.
+
+Lemma pinv2_new t : pinv2 (new_parser t).
+Proof. intros [H|H]; discriminate. Qed.
+
+Lemma maybe_complete_inv2 p raw : (state p = RCVING_BODY -> pinv2 p) -> pinv2 (maybe_complete p raw).
+Proof.
+  intros H. unfold maybe_complete.
+  destruct (N.eqb_spec (state p) HEADERS_COMPLETE) as [S|S]; cbn [andb].
+  2:{ intros [X|X]; [contradiction|]. apply (H X). right; exact X. }
+  destruct (negb (content_expected p || is_chunked_encoded p)) eqn:F; cbn [andb].
+  2:{ intros _ CE CH. rewrite CE, CH in F. discriminate. }
+  destruct (_ || _ || _) eqn:C.
+  - intros [X|X]; discriminate.
+  - apply orb_false_iff in C as [C C3]. apply orb_false_iff in C as [_ C2].
+    intros _ CE CH. repeat split; assumption.
+Qed.
+
+Lemma process_body_fields p raw m r p' : process_body p raw = Ok (m, r, p') ->
+  ty p' = ty p /\ headers p' = headers p /\ content_expected p' = content_expected p /\
+  is_chunked_encoded p' = is_chunked_encoded p /\
+  (is_chunked_encoded p = false -> state p' = RCVING_BODY \/ state p' = COMPLETE).
+Proof.
+  unfold process_body. destruct (is_chunked_encoded p) eqn:CH.
+  - destruct (chunk_parse _ raw) as [[raw' c']|]; cbn [bind]; [|discriminate].
+    intros H; inv_ok H. destruct (cstate_eqb (cst c') CCOMPLETE); repeat split; try assumption; discriminate.
+  - destruct (content_expected p) eqn:CE.
+    + destruct (header _ _); cbn [bind]; [|discriminate].
+      destruct (int10 _); cbn [bind]; [|discriminate].
+      intros H; inv_ok H. destruct (_ && _); repeat split; try assumption; intros _; [right|left]; reflexivity.
+    + intros H; inv_ok H. repeat split; try assumption. intros _. left; reflexivity.
+Qed.
+
+Lemma proc_inv2 al p raw m r p' : pinv p -> pinv2 p -> state p <> COMPLETE ->
+  proc al p raw = Ok (m, r, p') -> pinv2 (maybe_complete p' r).
+Proof.
+  intros I I2 N. destruct (state_cases p I N) as [S|[S|[S4 S6]]].
+  - rewrite proc_line by exact S. intros H. apply process_line_result in H.
+    apply maybe_complete_inv2. intros X.
+    inversion H as [E|line rest m0 u tn cd rs ver h pt pa E]; subst.
+    + rewrite S in X. discriminate.
+    + cbn [state set_line] in X. discriminate.
+  - rewrite proc_headers by exact S. intros H. pose proof (PH_spec p raw I S) as Sp. rewrite H in Sp.
+    destruct Sp as (_ & _ & _ & [([X|X] & _)|(X & _)]); apply maybe_complete_inv2; intros Y;
+      rewrite X in Y; discriminate.
+  - rewrite proc_body by exact S4. intros H.
+    apply process_body_fields in H. destruct H as (T & Hh & CE & CH & St).
+    apply maybe_complete_inv2. intros X _ E1 E2. rewrite CE in E1. rewrite CH in E2.
+    assert (B : state p = HEADERS_COMPLETE \/ state p = RCVING_BODY) by (ust; lia).
+    destruct (I2 B E1 E2) as (A1 & A2 & A3 & A4). unfold close_delimited.
+    rewrite T, CE, CH. unfold has_header in *. rewrite Hh. auto.
+Qed.
+
+Lemma PL_inv2 al : forall m p raw, pinv p -> pinv2 p -> forall r p', PL al m p raw = Ok (r, p') -> pinv2 p'.
+Proof.
+  apply (PL_ind al (fun m p raw res => pinv2 p -> forall r p', res = Ok (r, p') -> pinv2 p')).
+  - intros m p raw _ _ I2 r p' H; inv_ok H. exact I2.
+  - intros; discriminate.
+  - intros p raw m' r0 p0 I N E _ IH I2 r p' H.
+    apply (IH (proc_inv2 al p raw m' r0 p0 I I2 N E) _ _ H).
+Qed.
+
+(* third invariant: between calls, bytes are carried in [buffer] only while the start line or the
+   header block is incomplete, or after completion; during the body (in particular while the
+   chunk decoder holds a partial line or chunk) nothing is carried *)
+Definition st45 (p : parser) : Prop := state p = HEADERS_COMPLETE \/ state p = RCVING_BODY.
+Definition pinv3 (p : parser) : Prop := st45 p -> buffer p = None.
+
+Lemma proc_buf al p raw r p' : pinv p -> state p <> COMPLETE ->
+  proc al p raw = Ok (false, r, p') -> st45 (maybe_complete p' r) -> r = [].
+Proof.
+  intros I N. destruct (state_cases p I N) as [S|[S|[S4 S6]]].
+  - rewrite proc_line by exact S. intros H. apply process_line_result in H.
+    inversion H as [E|line rest m0 u tn cd rs ver h pt pa E]; subst.
+    + rewrite maybe_complete_not4 by (rewrite S; discriminate). intros [X|X]; rewrite S in X; discriminate.
+    + rewrite maybe_complete_not4 by (cbn [state set_line]; discriminate).
+      intros [X|X]; cbn [state set_line] in X; discriminate.
+  - rewrite proc_headers by exact S. intros H. pose proof (PH_spec p raw I S) as Sp. rewrite H in Sp.
+    destruct Sp as (_ & _ & _ & [(X & _)|(X & Y)]).
+    + assert (N4 : state p' <> HEADERS_COMPLETE) by (destruct X as [X|X]; rewrite X; discriminate).
+      rewrite maybe_complete_not4 by exact N4. intros [Z|Z]; destruct X as [X|X]; rewrite X in Z; discriminate.
+    + intros _. symmetry in Y. apply nz_false in Y. exact Y.
+  - rewrite proc_body by exact S4. destruct (is_chunked_encoded p) eqn:CH.
+    + rewrite process_body_chunked by exact CH. pose proof (chunk_of_inv p I) as IC.
+      destruct (chunk_parse (chunk_of p) raw) as [[ra c1]|e] eqn:E; cbn [bind]; [|discriminate].
+      intros H; inv_ok H. destruct (chunk_parse_remainder _ _ _ _ IC E) as [Er|Ec]; [intros _; exact Er|].
+      unfold chunk_result. apply cstate_eqb_complete in Ec. rewrite Ec.
+      rewrite maybe_complete_not4 by (cbn [state set_state]; discriminate).
+      intros [X|X]; cbn [state set_state] in X; discriminate.
+    + destruct (content_expected p) eqn:CE.
+      * destruct (pinv_cl p I CE S6) as (v & T & Hh & Hi & Hlt).
+        rewrite (process_body_cl p raw v T CH CE Hh Hi Hlt). intros H; inv_ok H.
+        match goal with H : nz raw = false |- _ => apply nz_false in H; subst raw end.
+        intros _. apply skipn_nil.
+      * rewrite (process_body_close p raw CH CE). intros H; inv_ok H. reflexivity.
+Qed.
+
+Lemma PL_buf al : forall m p raw, pinv p -> (m = false -> st45 p -> raw = []) ->
+  forall r p', PL al m p raw = Ok (r, p') -> st45 p' -> r = [].
+Proof.
+  apply (PL_ind al (fun m p raw res => (m = false -> st45 p -> raw = []) ->
+           forall r p', res = Ok (r, p') -> st45 p' -> r = [])).
+  - intros m p raw _ [Em|Ec] H r p' E S; inv_ok E.
+    + apply H; [reflexivity|exact S].
+    + destruct S as [S|S]; rewrite Ec in S; discriminate.
+  - intros; discriminate.
+  - intros p raw m' r0 p0 I N E _ IH _ r p' H S.
+    apply (IH (fun Em => ltac:(subst m'; exact (proc_buf al p raw r0 p0 I N E))) _ _ H S).
+Qed.
+
+Definition reachable_inv (p : parser) : Prop := parser_inv p /\ pinv2 p /\ pinv3 p.
+
+Lemma reachable_inv_new t : reachable_inv (new_parser t).
+Proof. split; [apply parser_inv_new|]. split; [apply pinv2_new|]. intros _. reflexivity. Qed.
+
+Theorem parse_with_reachable_inv al p raw p' : reachable_inv p -> parse_with al p raw = Ok p' -> reachable_inv p'.
+Proof.
+  intros (PI & I2 & I3) H. split; [eapply parse_with_inv; eassumption|].
+  destruct PI as (I & _). rewrite parse_with_alt in H by exact I.
+  destruct (PL al (nz raw) p (bufb p ++ raw)) as [[r q]|e] eqn:E; cbn [bind] in H; [|discriminate].
+  inv_ok H. split; [exact (PL_inv2 al _ _ _ I I2 _ _ E)|].
+  intros S. cbn [buffer set_buffer_size].
+  assert (X : r = []).
+  { apply (PL_buf al (nz raw) p (bufb p ++ raw) I) with (p' := q); [|exact E|exact S].
+    intros Em S0. apply nz_false in Em. subst raw. rewrite app_nil_r. unfold bufb. rewrite (I3 S0). reflexivity. }
+  rewrite X. reflexivity.
+Qed.
+
+(* on reachable states, not framed = a response whose header block had neither a content-length
+   header nor chunked encoding, and that received at least one byte after the blank line *)
+Theorem unframed_iff_close_delimited p : reachable_inv p ->
+  (framed p = false <-> state p = RCVING_BODY /\ close_delimited p).
+Proof.
+  intros ((I & _) & I2 & _). unfold framed. split.
+  - intros F. apply negb_false_iff in F.
+    apply andb_true_iff in F as [F CH]. apply andb_true_iff in F as [S CE].
+    apply N.eqb_eq in S. apply negb_true_iff in CE. apply negb_true_iff in CH.
+    split; [exact S|]. apply I2; auto.
+  - intros (S & _ & _ & CE & CH). rewrite S, CE, CH. reflexivity.
+Qed.
+
+(* every message of the grammar is inside the theorems: its final state is framed *)
+Lemma framed_expected m tail : framed (expected m tail) = true.
+Proof. apply framed_complete, expected_state. Qed.
+
+(* ------------------------------------------------------------------------------------- *)
+(* non-vacuity: a concrete chunked POST in absolute form with extensions and a trailer       *)
+
+Definition example_url : url :=
+  {| u_scheme := Some (bs "http"); u_username := None; u_password := None;
+     u_hostname := Some (bs "example.org"); u_port := Some 8080%Z; u_remainder := Some (bs "/up?x=1") |}.
+
+Definition example_msg : message :=
+  {| m_start := ReqLine (bs "POST") (bs "http://example.org:8080/up?x=1") (bs "HTTP/1.1") example_url;
+     m_hs1 := [ (bs "Host", bs "example.org:8080"); (bs "X-Dup", bs "1") ];
+     m_framing := FChunked (bs "Transfer-Encoding") (bs "Chunked") example_stream;
+     m_hs2 := [ (bs "x-dup", bs "2"); (bs "Accept", bs "*/*") ] |}.
+
+Definition example_tail : bytes := bs "GET / HTTP/1.1" ++ [13; 10; 72].
+
+Lemma hdr_ok_dec nv :
+  negb (nz (fst nv)) = false -> bytes_eqb (strip (fst nv)) (fst nv) = true ->
+  bytes_eqb (strip (snd nv)) (snd nv) = true ->
+  mem_byte COLON (fst nv) = false -> mem_byte CR (fst nv) = false -> mem_byte CR (snd nv) = false ->
+  hdr_ok nv.
+Proof.
+  intros H1 H2 H3 H4 H5 H6. unfold hdr_ok.
+  split; [apply nz_true; destruct (nz (fst nv)); [reflexivity|discriminate]|].
+  split; [apply bytes_eqb_eq, H2|]. split; [apply bytes_eqb_eq, H3|].
+  split; [apply mem_byte_false, H4|]. split; [apply mem_byte_false, H5|apply mem_byte_false, H6].
+Qed.
+
+Lemma other_ok_dec nv : hdr_ok nv ->
+  bytes_eqb (lower (fst nv)) CONTENT_LENGTH = false -> bytes_eqb (lower (fst nv)) TRANSFER_ENCODING = false ->
+  other_ok nv.
+Proof.
+  intros H A B. split; [exact H|].
+  split; intros E; rewrite E, bytes_eqb_refl in *; discriminate.
+Qed.
+
+Lemma example_msg_ok : message_ok DEFAULT_ALLOWED_URL_SCHEMES example_msg.
+Proof.
+  unfold message_ok, example_msg. cbn [m_start m_hs1 m_framing m_hs2 start_ok framing_ok].
+  split; [|split; [|split]].
+  - unfold tok. repeat split; try (apply mem_byte_false; vm_compute; reflexivity).
+  - repeat constructor; (apply other_ok_dec; [apply hdr_ok_dec|..]; vm_compute; reflexivity).
+  - split; [apply hdr_ok_dec; vm_compute; reflexivity|].
+    split; [vm_compute; reflexivity|]. split; [vm_compute; reflexivity|apply example_stream_ok].
+  - repeat constructor; (apply other_ok_dec; [apply hdr_ok_dec|..]; vm_compute; reflexivity).
+Qed.
+
+(* converse direction: if the pieces succeed, so does the whole feed, with the same record —
+   unless the whole feed ends in the excluded class *)
+Theorem two_piece_converse al p a b p1 p2 : parser_inv p ->
+  parse_with al p a = Ok p1 -> parse_with al p1 b = Ok p2 ->
+  framedP (parse_with al p (a ++ b)) -> parse_with al p (a ++ b) = Ok p2.
+Proof.
+  intros PI H1 H2 F. pose proof (two_piece_gen al p a b _ PI eq_refl F) as L.
+  rewrite H1 in L. cbn [bind] in L. rewrite H2 in L. symmetry. exact L.
 Qed.
